@@ -31,8 +31,10 @@ Record ecase := mkecase { cn : nat; crl : crule; ck : Z; cwh : which; ctol2 : Qc
                           cok : bool;                       (* the implementation returned a result *)
                           cw : list qi; cV : list (list qi) }.
 Fixpoint nodupb (l : list nat) : bool := match l with [] => true | x :: r => negb (existsb (Nat.eqb x) r) && nodupb r end.
+(* the backend sorts the ROUNDED magnitudes (hypot in binary64): keys that agree to 2^-40 relative may come in either order *)
+Definition qi_mag_leb_tol (a b : qi) : bool := qle (qinorm2 a) (qinorm2 b * qc 1099511627777 1099511627776)%Qc.
 Fixpoint sortedb (w : nat -> qi) (l : list nat) : bool :=
-  match l with x :: ((y :: _) as r) => qi_mag_leb (w x) (w y) && sortedb w r | _ => true end.
+  match l with x :: ((y :: _) as r) => qi_mag_leb_tol (w x) (w y) && sortedb w r | _ => true end.
 Definition valid_argsort (m : nat) (w : nat -> qi) (idx : list nat) : bool :=
   Nat.eqb (length idx) m && forallb (fun x => (x <? m)%nat) idx && nodupb idx && sortedb w idx.
 Definition cast_of (rb : bool) : qi -> qi := if rb then (fun x => (fst x, 0%Qc)) else (fun x => x).
@@ -76,7 +78,7 @@ Definition FPC : pops cfl := mkpops cfl (0, 0)
 Definition fmaxf (a b : float) := if a <? b then b else a.
 Definition relclose (tol a b : float) : bool := PrimFloat.abs (a - b) <=? tol * fmaxf 1 (fmaxf (PrimFloat.abs a) (PrimFloat.abs b)).
 Section PCheck.
-Context {T : Type} (o : pops T) (re : T -> float) (close : float -> T -> T -> bool).
+Context {T : Type} (o : pops T) (re : T -> float) (close closev : float -> T -> T -> bool).   (* close: purely relative (eigenvalue, any scale); closev: unit vectors *)
 (* smallest relative distance of the stopping test from its threshold along the run: the iteration count is only
    compared when it exceeds tie_tol *)
 Fixpoint pmargin (fl : pflags) (A : list (list T)) (tol : T) (fuel : nat) (s : pstate (T:=T)) (acc : float) : float :=
@@ -95,15 +97,19 @@ Definition check_pcase (c : pcase) : nat :=
   let mg := pmargin (pfl c) (pA c) (ptol c) (pmax c) (mkps 0 (pv0 c) (pv0 c) (pten c) (pone c)) 1 in
   if mg <? 0x1.0c6f7a0b5ed8dp-20 (* 1e-6 *) then 2%nat
   else if Nat.eqb (pit s) (pr_iters c) && close 0x1.12e0be826d695p-30 (* 1e-9 *) (peig s) (pr_eig c)
-          && forallb (fun p => close 0x1.12e0be826d695p-30 (fst p) (snd p)) (combine (pv s) (pr_v c))
+          && forallb (fun p => closev 0x1.12e0be826d695p-30 (fst p) (snd p)) (combine (pv s) (pr_v c))
           && Nat.eqb (length (pv s)) (length (pr_v c)) then 0%nat else 1%nat.
 End PCheck.
 Definition cclose (tol : float) (a b : cfl) : bool :=
   let d := PrimFloat.sqrt ((fst a - fst b) * (fst a - fst b) + (snd a - snd b) * (snd a - snd b)) in
   let sc := fmaxf 1 (fmaxf (PrimFloat.sqrt (fst a * fst a + snd a * snd a)) (PrimFloat.sqrt (fst b * fst b + snd b * snd b))) in
   d <=? tol * sc.
-Definition check_pcase_r := check_pcase FP (fun x => x) relclose.
-Definition check_pcase_c := check_pcase FPC fst cclose.
+Definition relclose0 (tol a b : float) : bool := PrimFloat.abs (a - b) <=? tol * fmaxf (PrimFloat.abs a) (PrimFloat.abs b).
+Definition cclose0 (tol : float) (a b : cfl) : bool :=
+  let d := PrimFloat.sqrt ((fst a - fst b) * (fst a - fst b) + (snd a - snd b) * (snd a - snd b)) in
+  d <=? tol * fmaxf (PrimFloat.sqrt (fst a * fst a + snd a * snd a)) (PrimFloat.sqrt (fst b * fst b + snd b * snd b)).
+Definition check_pcase_r := check_pcase FP (fun x => x) relclose0 relclose.
+Definition check_pcase_c := check_pcase FPC fst cclose0 cclose.
 Fixpoint codes_from {A} (chk : A -> nat) (i : nat) (cs : list A) : list (nat * nat) :=
   match cs with [] => [] | c :: r => match chk c with O => codes_from chk (S i) r | k => (i, k) :: codes_from chk (S i) r end end.
 Close Scope float_scope.
